@@ -52,6 +52,14 @@ type Exec struct {
 	inlined   map[string]int
 	srcCache  map[string][]string
 	exprErrs  []string
+	entryTmp  *State
+}
+
+func (ex *Exec) entryContent(a *ArrObj) Content {
+	if ex.entryTmp == nil {
+		return nil
+	}
+	return ex.entryTmp.arrs[a].C
 }
 
 type Frame struct {
@@ -202,6 +210,7 @@ func runFunction(prog *Prog, name string, fn *ssa.Function, con *Contract) *Exec
 	f.limit = con.MakeLimit
 	// parameters
 	sig := fn.Signature
+	ex.entryTmp = st
 	for i, p := range fn.Params {
 		orig := OrigParam
 		v := ex.w.freshReg(st, p.Type(), p.Name(), orig)
@@ -253,8 +262,16 @@ func (ex *Exec) recordInput(name string, v Val) {
 		ex.inputs[name] = x.T
 	case VSlice:
 		ex.inputs[name+".len"] = x.Len
+		if c := ex.entryContent(x.A); c != nil {
+			for k := 0; k < 48; k++ {
+				ex.inputs[fmt.Sprintf("%s[%d]", name, k)] = c.Sel(bvLit(uint64(k), 64))
+			}
+		}
 	case VStr:
 		ex.inputs[name+".len"] = x.Len
+		for k := 0; k < 48; k++ {
+			ex.inputs[fmt.Sprintf("%s[%d]", name, k)] = x.C.Sel(bvLit(uint64(k), 64))
+		}
 	}
 }
 
